@@ -96,4 +96,12 @@ PROPS = {
         "trusted_base": ["header (de)serialisation S/P: parameters with hypothesis P(S h)=h; in the run S is a table computed by serde", "JSON envelope (member level in the model; serde by correspondence)", "storage-backed signing stream is implementation-only until the document model (C04) is connected", "Ed25519 (parameter)"],
         "assumptions": [],
     },
+    "C18": {
+        "translate": True,
+        "diff_is_violation": False,
+        "trivial": ["bad-request", "err"],
+        "rule": "streams: (1) corpus; (2) JWK JSON over the four key types x EVERY subset of private members (RSA: all 128 incl. partial sets and oth) x every declared kty (matching, each mismatching, unknown, absent) x 7 optional-member sets (use/alg/kid/key_ops incl. empty and multi-op lists), each with a pseudo-random member order; one required member dropped at a time; 11 mixed / mismatching member sets (OKP members under kty RSA, OKP + stray y, RSA + k, all families at once, ...) x 6 declared types x permutations; 300 (3000) random complete keys with random order; constructors: Jwk::new, from_params + set_kty to every type, set_params with matching and mismatching families; VerificationMethod::new_from_jwk over every private-member subset; generated key output and generated documents scanned for private members. Oracle: kty = parameter family, is_public iff no private member, projection has no private member (also in its JSON), keeps public members and type, is public, is idempotent, thumbprint unchanged by member order / optional members / private part, JSON round trip. Non-trivial = reply not err/bad-request; distinct request lines.",
+        "trusted_base": ["serde attribute glue (untagged resolution, flatten, skip rules, member order) is modelled (first variant whose required members are present) and tied by correspondence", "SHA-256 / base64 of the thumbprint are not modelled: the theorem is about the hash INPUT"],
+        "assumptions": ["set_params_unchecked and params_mut are documented escape hatches and are outside the coherence theorem and the oracle"],
+    },
 }
